@@ -16,6 +16,12 @@ Labels (also the wire format of the Lean driver, see lean/Driver/C07.lean):
   l<c>      idle connection number c is lost (peer closed it while pooled)
   C         connector._close_immediately()
   p<k0>.<k1>...  the order `random.shuffle` will give to the waiter queues from now on
+  t<t>      the trace callback task t is suspended in returns
+
+Trace hooks: with `mask != 0` every connect() gets a real `aiohttp.tracing.Trace` whose TraceConfig has, for
+each selected hook (bit 0 on_connection_reuseconn, 1 queued_start, 2 queued_end, 3 create_start,
+4 create_end), a callback that suspends on a future resolved by the `t` label — so every await the
+connector performs between a capacity check and the matching reservation/release is an interleaving point.
 """
 import asyncio
 import inspect
@@ -87,7 +93,7 @@ def _host_index(key):
 class Pool:
     """one scenario: N tasks with fixed keys on a real BaseConnector(limit, limit_per_host)"""
 
-    def __init__(self, limit, lph, keys):
+    def __init__(self, limit, lph, keys, mask=0):
         import aiohttp.connector as connector_mod
         from aiohttp import ClientTimeout
         from aiohttp.client_reqrep import ClientRequestBase
@@ -106,6 +112,9 @@ class Pool:
         connector_mod.random = self.shuf
         self.keys = list(keys)
         self.nkeys = max(self.keys) + 1 if self.keys else 1
+        self.mask = mask
+        self.trace_wait = {}       # tid -> (hook letter, future) while suspended in a trace callback
+        self.created_by = {}       # tid -> cid of the connection its attempt produced
         self.attempt = {}          # tid -> future of the running connection attempt
         self.transports = []       # every transport created, index = connection id
         self.handed = {}           # tid -> Connection
@@ -125,6 +134,7 @@ class Pool:
                 # the attempt succeeded: only now does a transport exist
                 proto = self._factory()
                 tr = MemTransport(proto, len(pool.transports))
+                pool.created_by[tid] = tr.cid
                 pool.transports.append(tr)
                 proto.connection_made(tr)
                 return proto
@@ -138,6 +148,29 @@ class Pool:
                 r.proxy = None
             self.reqs.append(r)
         self.timeout = ClientTimeout(total=None, connect=1000.0)
+        self.traces = [[] for _ in self.keys]
+        if mask:
+            from types import SimpleNamespace
+            from aiohttp import TraceConfig
+            from aiohttp.tracing import Trace
+
+            def hook(letter):
+                async def cb(session, ctx, params):
+                    fut = pool.loop.create_future()
+                    pool.trace_wait[ctx.tid] = (letter, fut)
+                    try:
+                        await fut
+                    finally:
+                        pool.trace_wait.pop(ctx.tid, None)
+                return cb
+            tc = TraceConfig()
+            for bit, (letter, sig) in enumerate([("r", tc.on_connection_reuseconn), ("q", tc.on_connection_queued_start),
+                                                 ("Q", tc.on_connection_queued_end), ("s", tc.on_connection_create_start),
+                                                 ("e", tc.on_connection_create_end)]):
+                if mask >> bit & 1:
+                    sig.append(hook(letter))
+            tc.freeze()
+            self.traces = [[Trace(SimpleNamespace(), tc, SimpleNamespace(tid=t))] for t in range(len(self.keys))]
         self.hostkey = [r.connection_key for r in self.reqs]
         self.key_of_host = {}
         for t, k in enumerate(self.keys):
@@ -179,7 +212,7 @@ class Pool:
         if op == "s":
             t = int(arg)
             if self.tasks[t] is None:
-                self.tasks[t] = self.loop.create_task(self.conn.connect(self.reqs[t], [], self.timeout))
+                self.tasks[t] = self.loop.create_task(self.conn.connect(self.reqs[t], self.traces[t], self.timeout))
         elif op == "k":
             if self.loop._ready:
                 h = self.loop._ready.popleft()
@@ -225,6 +258,11 @@ class Pool:
                     tr.proto.connection_lost(None)
         elif op == "C":
             self.conn._close_immediately()
+        elif op == "t":
+            t = int(arg)
+            w = self.trace_wait.get(t)
+            if w is not None and not w[1].done():
+                w[1].set_result(None)
         elif op == "p":
             self.shuf.perm = [int(x) for x in arg.split(".")] if arg else []
         else:
@@ -274,6 +312,20 @@ class Pool:
         bang = "!" if task.cancelling() > 0 else ""
         if inspect.getcoroutinestate(task.get_coro()) == inspect.CORO_CREATED:
             return "s" + bang
+        if t in self.trace_wait:
+            letter, tf = self.trace_wait[t]
+            plus = "+" if tf.done() and not tf.cancelled() else ""
+            if letter == "r":
+                base = f"u{self._cid(self._frame_local(task, '_get', 'proto'))}"
+            elif letter in "qQ":
+                f = self._frame_local(task, "_wait_for_available_connection", "fut")
+                base = "w" if not f.done() else "V" if f.cancelled() else "W"
+            elif letter == "s":
+                base = "c"
+            else:
+                base = "c+"
+                letter = f"e{self.created_by[t]}"
+            return base + "~" + letter + plus + bang
         if t in self.attempt:
             f = self.attempt[t]
             if not f.done() or f.cancelled():
@@ -283,6 +335,17 @@ class Pool:
         if f is None:
             return "?(running)"
         return ("w" if not f.done() else "V" if f.cancelled() else "W") + bang
+
+    @staticmethod
+    def _frame_local(task, func, name):
+        """local variable `name` of the (suspended) coroutine `func` in the await chain of `task`"""
+        co = task.get_coro()
+        while co is not None:
+            fr = getattr(co, "cr_frame", None)
+            if fr is not None and fr.f_code.co_name == func:
+                return fr.f_locals.get(name)
+            co = getattr(co, "cr_await", None)
+        return None
 
     def project(self):
         """what the Lean model prints too (lean/Driver/C07.lean `showSt`)"""
@@ -297,6 +360,8 @@ class Pool:
         for t, task in enumerate(self.tasks):
             if task is not None and not task.done() and task._fut_waiter is not None:
                 fut_owner[id(task._fut_waiter)] = t
+                if t in self.trace_wait and self.trace_wait[t][0] in "qQ":
+                    fut_owner[id(self._frame_local(task, "_wait_for_available_connection", "fut"))] = t
         wq = ";".join(f"{_host_index(key)}:" + (".".join(str(fut_owner.get(id(f), "?")) for f in q) or "-")
                       for key, q in c._waiters.items()) or "-"
         idle = "/".join((".".join(str(self._cid(p)) for p, _ in c._conns[self.key_of_host[k]])
@@ -311,6 +376,11 @@ class Pool:
         out = []
         for t in range(len(self.tasks)):
             st = self.task_state(t)
+            if "~" in st:
+                out += [f"c{t}", f"m{t}"]
+                if "+" not in st.split("~")[1] and not st.endswith("!"):
+                    out.append(f"t{t}")
+                continue
             if st == "i":
                 out.append(f"s{t}")
             elif st[0] == "s":
@@ -340,6 +410,9 @@ class Pool:
         per = [0] * self.nkeys
         for t in self.attempt:
             per[self.keys[t]] += 1
+        for t, (letter, _) in self.trace_wait.items():
+            if letter in "rse":      # holds a pooled connection / a reservation / a freshly created connection
+                per[self.keys[t]] += 1
         for t in range(len(self.tasks)):
             c = self.conn_of(t)
             if c is not None and c._protocol is not None and c._protocol.is_connected():
@@ -374,9 +447,9 @@ class Pool:
             self.loop.close()
 
 
-def run_labels(limit, lph, keys, labels, observe=None):
+def run_labels(limit, lph, keys, labels, observe=None, mask=0):
     """perform the labels; returns the list of projections (one per label)"""
-    p = Pool(limit, lph, keys)
+    p = Pool(limit, lph, keys, mask)
     out = []
     try:
         for lab in labels:
